@@ -10,6 +10,7 @@ import (
 	"os"
 	"runtime"
 	"strings"
+	"sync"
 	"sync/atomic"
 	"testing"
 	"testing/cryptotest"
@@ -212,7 +213,15 @@ func executeCtx(t *testing.T, prop string, seed uint64, p *CtxPlan) *core.Result
 					cancel()
 					if p.SlowDeadline > 0 {
 						// ... and whoever touches the deadlines is slow to take effect
-						fc.DeadlineHook = func(time.Time) {
+						var lifting sync.Mutex
+						fc.DeadlineHook = func(t time.Time) {
+							if t.IsZero() && lifting.TryLock() {
+								// a lift takes effect once everybody else has had their turn
+								// (whoever arms a deadline for the ended context goes first)
+								synctest.Wait()
+								lifting.Unlock()
+								return
+							}
 							for i := 0; i < p.SlowDeadline; i++ {
 								runtime.Gosched()
 							}
@@ -613,7 +622,9 @@ func genC10(seed uint64, idx int) *Plan {
 		}
 		c.ZeroWindow = r.IntN(2) == 0
 		c.Malformed = c.ZeroWindow && r.IntN(2) == 0
-		c.Reps = 4
+		if c.EndKind != "pre" {
+			c.Reps = 4
+		}
 	}
 	return &Plan{Kind: "ctx", Seed: seed, Ctx: c}
 }
